@@ -347,7 +347,7 @@ class Stats:
         self.solver_s += o.solver_s
         for n, d in o.obligations.items():
             dd = self.obligations.setdefault(n, {'unsat': 0, 'sat': 0, 'unknown': 0})
-            for k in d: dd[k] += d[k]
+            for k in d: dd[k] = dd.get(k, 0) + d[k]
         self.cex += o.cex; self.unknown += o.unknown; self.smt2 += o.smt2
         self.int_forks += o.int_forks
 
@@ -357,8 +357,10 @@ class Stats:
 
 
 class Ctx:
-    def __init__(self, decisions, stats, timeout_ms, export_every=0, stop_at_first=True, eqs_first=False):
+    def __init__(self, decisions, stats, timeout_ms, export_every=0, stop_at_first=True, eqs_first=False, sat_search=False, clear_div=False):
         self.eqs_first = eqs_first
+        self.sat_search = sat_search
+        self.clear_div = clear_div
         self.decisions = decisions     # list of [kind, value]; kind 'T' = alternative still open
         self.pos = 0
         self.pc = []
@@ -384,6 +386,28 @@ class Ctx:
             r = self.solver.check()
             m = self.solver.model() if r == z3.sat else None
             self.solver.pop()
+        if r == z3.unknown and self.clear_div:
+            # division-free form of the whole query (equivalent wherever no divisor vanishes; divisors are constrained
+            # to be nonzero -- inputs with a vanishing divisor are outside the claim), then normal-form simplification
+            from . import ratnorm
+            F, divs = ratnorm.clear(list(self.pc) + list(extra))
+            F = F + [d != 0 for d in divs]
+            self.stats.divisors = getattr(self.stats, 'divisors', 0) + len(divs)
+            g = z3.Goal(); g.add(*F)
+            try:
+                res = _NORMAL_FORM.apply(g) if False else _nf_apply(g, min(self.cur_timeout_ms, 20000))
+            except z3.Z3Exception:
+                res = None
+            if res is not None and len(res) == 1 and len(res[0]) == 1 and z3.is_false(res[0][0]):
+                r = z3.unsat
+            else:
+                s = z3.Solver()
+                s.set('timeout', self.cur_timeout_ms)
+                s.add(*F)
+                r = s.check()
+                m = s.model() if r == z3.sat else None
+            self.stats.solver_s += time.time() - t0
+            return str(r), m
         if r == z3.unknown and self.eqs_first:
             # small portfolio: equation solving + the SMT core first (decides "equal up to rearrangement of
             # (non)linear monomials" instantly where the default strategy can spend a minute), then the default solver
@@ -500,9 +524,23 @@ class Ctx:
             # trivially true after simplification: still counts as discharged (by the simplifier)
             d['unsat'] += 1; st.queries['unsat'] += 1
             return 'unsat'
+        if self.sat_search and d['sat'] and not self.stop_at_first:
+            # this obligation was already refuted on an earlier path: one counterexample per obligation is enough
+            d['skipped'] = d.get('skipped', 0) + 1
+            return 'sat'
         if timeout_ms:
             self.cur_timeout_ms = timeout_ms
-        r, m = self._check(z3.Not(prop), fresh=True)
+        conj = [prop]
+        if self.clear_div and z3.is_and(prop):
+            # one query per conjunct: each is a single (dis)equation, which the normal-form stage decides directly
+            conj = [cj for cj in prop.children() if not z3.is_true(z3.simplify(cj))] or [prop]
+        r, m = 'unsat', None
+        for cj in conj:
+            rc, mc = self._discharge(z3.Not(cj))
+            if rc == 'sat':
+                r, m = rc, mc; break
+            if rc == 'unknown':
+                r = 'unknown'
         self.cur_timeout_ms = self.timeout_ms
         d[r] += 1; st.queries[r] += 1
         if self.export_every and (st.total_queries % self.export_every == 0) and len(st.smt2) < 8:
@@ -516,6 +554,56 @@ class Ctx:
             st.unknown.append(name)
         return r
 
+    def _discharge(self, neg):
+        if self.sat_search:
+            full = self.cur_timeout_ms
+            self.cur_timeout_ms = min(full, 5000)
+            r, m = self._check(neg, fresh=True)
+            if r == 'unknown':
+                r, m = self._model_search(neg)
+            if r == 'unknown':
+                self.cur_timeout_ms = full
+                r, m = self._check(neg, fresh=True)
+            self.cur_timeout_ms = full
+            return r, m
+        return self._check(neg, fresh=True)
+
+    def _model_search(self, neg, tries=8):
+        """counterexample search on restrictions: fix a random subset of the free real/int constants to small
+        rationals (added as equalities, so a model of the restriction is a model of the original query) and ask the
+        solver again.  Can only turn 'unknown' into 'sat'; never produces 'unsat'."""
+        import random
+        t0 = time.time()
+        consts = {}
+        def walk(e, seen=set()):
+            if e.get_id() in seen: return
+            seen.add(e.get_id())
+            if z3.is_const(e) and e.decl().kind() == z3.Z3_OP_UNINTERPRETED and (z3.is_real(e) or z3.is_int(e)):
+                consts[e.get_id()] = e
+            for ch in e.children(): walk(ch, seen)
+        seen = set()
+        base = list(self.pc) + [neg]
+        if self.clear_div:
+            from . import ratnorm
+            base, divs = ratnorm.clear(base)
+            base = base + [d != 0 for d in divs]
+        for f in base: walk(f, seen)
+        cs = sorted(consts.values(), key=lambda e: str(e))
+        rnd = random.Random(len(cs) * 7919 + 13)
+        res = ('unknown', None)
+        for k in range(tries):
+            frac = (0.5, 0.7, 0.85, 0.6, 0.9, 0.75, 0.95, 0.8)[k % 8]
+            s = z3.Solver(); s.set('timeout', 3000)
+            s.add(*base)
+            for e in cs:
+                if rnd.random() < frac:
+                    v = rnd.choice([-3, -2, -1, 1, 2, 3, 4, 5]) if z3.is_int(e) else z3.RealVal(Fraction(rnd.randint(-7, 9), rnd.choice([1, 1, 2, 3])))
+                    s.add(e == v)
+            if s.check() == z3.sat:
+                res = ('sat', s.model()); break
+        self.stats.solver_s += time.time() - t0
+        return res
+
     def witness(self, name='reach'):
         """vacuity guard: the path reaching this point must be satisfiable"""
         r, _ = self._check(fresh=True)
@@ -525,6 +613,11 @@ class Ctx:
 
 
 _PORTFOLIO_FIRST = z3.Then('simplify', 'solve-eqs', 'smt')
+_NORMAL_FORM = z3.Then(z3.With('simplify', som=True), 'solve-eqs', z3.With('simplify', som=True))
+
+
+def _nf_apply(goal, timeout_ms):
+    return z3.TryFor(_NORMAL_FORM, timeout_ms).apply(goal)
 
 
 class _StopExploration(BaseException):
@@ -532,7 +625,7 @@ class _StopExploration(BaseException):
 
 
 def explore(fn, timeout_ms=30000, max_paths=20000, export_every=0, stop_at_first=True, wall_budget_s=None,
-            catch_exceptions=True, eqs_first=False):
+            catch_exceptions=True, eqs_first=False, sat_search=False, clear_div=False):
     """Run `fn(ctx)` once per feasible path.  `fn` creates its symbolic inputs (plain z3 consts
     wrapped in Sym), calls ctx.assume(...) for preconditions, runs the code under test and states
     obligations with ctx.check(...).  Returns Stats."""
@@ -543,7 +636,7 @@ def explore(fn, timeout_ms=30000, max_paths=20000, export_every=0, stop_at_first
     prev = _CTX
     try:
         while True:
-            c = Ctx(decisions, stats, timeout_ms, export_every, stop_at_first, eqs_first)
+            c = Ctx(decisions, stats, timeout_ms, export_every, stop_at_first, eqs_first, sat_search, clear_div)
             _CTX = c
             try:
                 fn(c)
